@@ -14,7 +14,7 @@ from vmon.libutil import monitored
 
 LEVEL = "exploration"
 SHARDS = {"quick": 8, "thorough": 16}
-MUST = ["recorder.rows", "recorder.pprint", "recorder.console", "describe.runs", "parse.runs", "parse.index_valid", "parse.index_out_of_range", "files.empty", "files.truncated", "files.unrecognized_apids", "files.idle_or_zero_apid", "files.prefixed_skip_header_bytes",
+MUST = ["recorder.rows", "describe.real_process", "recorder.pprint", "recorder.console", "describe.runs", "parse.runs", "parse.index_valid", "parse.index_out_of_range", "files.empty", "files.truncated", "files.unrecognized_apids", "files.idle_or_zero_apid", "files.prefixed_skip_header_bytes",
         "n.le10", "n.gt10", "parse.beyond_max_items", "parse.with_display_options", "files.duplicate_packets", "flags.none", "flags.-q", "flags.--quiet"]
 RULE = ("case = (packet file of n packets, command, packet index); the recorded rows / pretty-printed object / console "
         "messages are compared with the expectation computed from the packet list: every row once in order for "
@@ -301,7 +301,42 @@ def _run(ctx):
             if rec.pprinted or not said:
                 ctx.violation(f"parse/index/no-out-of-range-message/index={iclass}", f"--packet {idx} with {n} packets: printed {rec.printed!r}, pprinted {len(rec.pprinted)} objects", wit)
 
+    def real_process(n, ioenc):
+        """the command as a real child process whose standard output uses the given encoding (a pipe / a terminal that cannot encode
+        non-ASCII text): exit status 0 and the expected rows, read from the text it printed"""
+        import re
+        import subprocess
+        import sys
+        from vmon.core import REPO
+        pk = mkpackets(n)
+        path = os.path.join(scratch, "real.bin")
+        with open(path, "wb") as f:
+            f.write(b"".join(pk))
+        env = dict(os.environ, PYTHONPATH=REPO, PYTHONIOENCODING=ioenc, COLUMNS="240", NO_COLOR="1", TERM="dumb")
+        p_ = subprocess.run([sys.executable, "-c", "from space_packet_parser.cli import spp; spp()", "describe-packets", path], capture_output=True, timeout=600, env=env)
+        ctx.count("evaluations")
+        ctx.count("describe.real_process")
+        ctx.sig("describe-real-process", nclass(n), ioenc)
+        wit = {"command": "describe-packets (child process)", "n": n, "stdout_encoding": ioenc, "stderr": p_.stderr.decode("latin-1")[-400:]}
+        if p_.returncode != 0:
+            ctx.violation(f"describe/real-process/exit-status/n={nclass(n)}/{ioenc}", f"exit status {p_.returncode} listing {n} packets with a {ioenc} standard output", wit)
+            return
+        text = p_.stdout.decode(ioenc.split(":")[0], "replace")
+        got = []
+        for line in text.splitlines():
+            cells = [c.strip() for c in re.split(r"[|\u2502\u2503]", line)]
+            cells = [c for c in cells if c]
+            if len(cells) >= 7 and all(c.isdigit() for c in cells):
+                got.append(tuple(cells[-7:]))
+        rows = [header_row(x) for x in pk]
+        exp = rows if n <= 10 else rows[:5] + rows[-5:]
+        if got != exp:
+            ctx.violation(f"describe/real-process/rows/n={nclass(n)}/{ioenc}", f"{len(got)} header rows read from the child's output, expected {len(exp)} (n={n})", dict(wit, got=got[:12], expected=exp[:12]))
+
     try:
+        if ctx.shard == 3 % ctx.nshards:
+            for n_, enc_ in ((0, "ascii"), (3, "ascii"), (10, "ascii"), (11, "ascii"), (25, "ascii"), (13, "latin-1"), (13, "utf-8"), (12, "cp1252")):
+                real_process(n_, enc_)
         nmax = ctx.size(16, 120)
         item = 0
         for n in range(0, nmax + 1):
